@@ -36,8 +36,8 @@ ASSUMPTIONS = [
 
 def budget(tier):
     if tier == 'thorough':
-        return {'seeds': 40000, 'wall': 840, 'chunk': 50}
-    return {'seeds': 3000, 'wall': 150, 'chunk': 20}
+        return {'seeds': 70000, 'wall': 900, 'chunk': 100}
+    return {'seeds': 5000, 'wall': 200, 'chunk': 50}
 
 
 MISSING = [None, None, None, ['fn', 'dict'], ['fn', 'dict'], ['fn', 'list'], ['fn', 'objfactory'],
@@ -159,6 +159,8 @@ class Run:
             sp = (G.Assign(path, val, missing=missing), T)
             th = lambda: G.glom(tgt, sp)
         else:   # S-rooted: destination addressed through the scope
+            if api != 'S-rooted' or not all(op == '[' for op, _ in item['segs']):
+                raise ValueError(f'ill-formed item: api={api!r}')
             sp_path = S['x']
             for op, arg in item['segs']:
                 sp_path = sp_path[arg]
